@@ -13,9 +13,12 @@ import RdfModel.Proofs.C11MdTerm
 import RdfModel.Proofs.C11MdSteps
 import RdfModel.Proofs.C11MdWf
 import RdfModel.Proofs.C11MdRelabel
+import RdfModel.Proofs.C11MdCopies
 import RdfModel.Proofs.C11MdFlat
 import RdfModel.Proofs.C11MdCanon
 import RdfModel.Proofs.C11MdTyped
+import RdfModel.Proofs.C11MdNested
+import RdfModel.Proofs.C11MdWritten
 namespace RdfModel.C11Md
 open RdfModel RdfModel.Desc RdfModel.Mdd
 
@@ -51,6 +54,15 @@ theorem mdd_step_bound (E : Env) (t : Node) :
 theorem mdd_expansion_bound (E : Env) (t : Node) : (run E (relabel t)).expansions ≤ (subnodes t).length := by
   have := run_expansions_le E (relabel t)
   rwa [relabel_size] at this
+
+/-- C05 (the listed finding C05X-microdata-itemref is quadratic, not worse): before every itemref jump the Go code
+    copies the whole RecursedItemrefs map into a fresh one; the model counts the copied entries (`St.copies`; not
+    observable on the Go side, it restates `for k, v := range ectx.RecursedItemrefs`).  Their total is at most
+    N · R (N nodes, R itemref tokens in the document). -/
+theorem mdd_copy_cost_bound (E : Env) (t : Node) :
+    (run E (relabel t)).copies ≤ (subnodes t).length * refTokens t := by
+  have := run_copies_le E (relabel t)
+  rwa [relabel_size, relabel_refTokens] at this
 
 /-- `relabel` gives distinct nodes distinct identities (so that the model's `ResolvedItemscopes`, keyed by
     identity, is Go's map keyed by `*html.Node`) -/
@@ -106,14 +118,66 @@ open RdfModel.Spec.Html RdfModel.Spec.Microdata
 variable {β : Type} [DecidableEq β]
 
 /-- The full statement (NOT proved): on every tree of the fragment of Spec/MicrodataFragment.lean (embedded as a DOM
-    by `ofSpecDoc`), with the parameters instantiated as the fragment fixes them (`specEnv`), the model decoder
-    yields the denotation up to order and an injective renaming of the item positions. -/
+    by `ofSpecDoc`), itemref included, with the parameters instantiated as the fragment fixes them (`specEnv`), the
+    model decoder yields the denotation up to order and a renaming of item positions that is injective on the items
+    whose subject is a blank node (`Nested.bnItems`).  Proved for documents without itemref
+    (`mdd_refines_denote_nested_partial`); see there for what is missing. -/
 def mdd_refines_denote : Prop :=
-  ∀ (base : Str) (tm mm : List (Bytes → Option (Term Nat))) (doc : Tree), inFragment doc = true →
+  ∀ (base : Str) (tm mm : List (Bytes → Option (Term Nat))) (doc : Tree), Nested.Decline tm mm →
+    Nested.tokOk doc = true → inFragment doc = true →
     ∃ (stmts : List Stmt) (σ : Path → Nat),
       decode (specEnv base tm mm) (ofSpecDoc doc) = .ok stmts [] ∧
-      (∀ p ∈ itemsNode [] doc, ∀ q ∈ itemsNode [] doc, σ p = σ q → p = q) ∧
+      (∀ p ∈ Nested.bnItems [] doc, ∀ q ∈ Nested.bnItems [] doc, σ p = σ q → p = q) ∧
       stmts.Perm ((denote base doc).map (Triple.map σ))
+
+/-- C11, *partial* — NESTED ITEMS, ALL VALUE RULES, MULTI-TOKEN NAMES, SURROUNDING MARKUP: for EVERY abstract tree
+    of the fragment that has no `itemref` attribute (`Nested.NestedFrag`: additionally Go's Unicode-aware tokenisation
+    of every itemprop / itemid agrees with HTML's ASCII one — `tokOk`, decidable — and meter@value / time@datetime
+    are plain words — the fragment's own `inFragment`), and for mappers that leave plain words alone (`Decline`):
+    * ORDER, EXACTLY: the model decoder's statement list IS the streaming semantics `Stream.swP` (at every element
+      first the statements it gives the enclosing item — one per distinct itemprop token, names resolved against the
+      enclosing item's first type, value by element: meta@content, audio/embed/iframe/img/source/track/video@src,
+      a/area/link@href, object@data, data/meter@value, time@datetime else text, any other element its textContent, an
+      element with itemscope the item itself —, then for an item its rdf:type statements, then its children, to any
+      depth, through any non-item wrapper elements and text), with the blank node of the item at path `p` renamed to
+      `Nested.rank doc p` = the decoder's blank-node counter on reaching it;
+    * hence a PERMUTATION of `Spec.Microdata.denote base doc` under that renaming (`Stream.swP_perm_denote`: the
+      denotation lists item by item, the decoder interleaves);
+    * the renaming separates the blank-node items.
+    MISSING for `mdd_refines_denote`: itemref — see `mdd_refines_denote_itemref_partial` for the part proved. -/
+theorem mdd_refines_denote_nested_partial (base : Str) (tm mm : List (Bytes → Option (Term Nat)))
+    (hdec : Nested.Decline tm mm) (doc : Tree) (hfrag : Nested.NestedFrag doc) :
+    decode (specEnv base tm mm) (ofSpecDoc doc) =
+      .ok ((Stream.swP base none [] doc).map (Triple.map (Nested.rank doc))) [] ∧
+    ((Stream.swP base none [] doc).map (Triple.map (Nested.rank doc))).Perm
+      ((denote base doc).map (Triple.map (Nested.rank doc))) ∧
+    (∀ p ∈ Nested.bnItems [] doc, ∀ q ∈ Nested.bnItems [] doc, Nested.rank doc p = Nested.rank doc q → p = q) :=
+  ⟨Nested.decode_nested base tm mm hdec doc hfrag, (Stream.swP_perm_denote base doc hfrag.1).map _,
+    fun p hp q hq h => Nested.rank_inj doc p q hp hq h⟩
+
+/-- C11, *partial* — ITEMREF TO PLAIN TARGETS, on top of everything in `mdd_refines_denote_nested_partial`: for every
+    fragment tree in which each itemref token names no element or an element whose subtree contains neither an item
+    nor an itemref (`Ref.RefFrag`; shared targets, repeated tokens, missing ids, targets before or after or inside
+    other items, duplicate ids — the first element in tree order wins, as `Document.GetNodesByID(id)[0]` — all
+    allowed), the model decoder's statement list IS the streaming semantics `Ref.swR`: at an item, after its link and
+    rdf:type statements, for each itemref token IN ORDER (a repeated token repeats its statements) the properties
+    found in the named subtree with the item as subject, then the item's children.  Hence a PERMUTATION of
+    `Spec.Microdata.denote` (which lists an item's own descendants before the referenced ones) under the renaming
+    `Nested.rank`, injective on blank-node items.
+    MISSING for `mdd_refines_denote`: itemref targets that contain items or further itemrefs (item-valued
+    properties reached through itemref, chains, cycles): there the ResolvedItemscopes memo decides at which visit a
+    shared item's own statements are produced and the RecursedItemrefs guard drops back links — tied by T3 only
+    (go/cmd/c11md against the model; `mdd_terminates_no_panic`, `mdd_step_bound`, `mdd_copy_cost_bound` and
+    `mdd_emits_wf` do cover those documents). -/
+theorem mdd_refines_denote_itemref_partial (base : Str) (tm mm : List (Bytes → Option (Term Nat)))
+    (hdec : Nested.Decline tm mm) (doc : Tree) (hfrag : Ref.RefFrag doc) :
+    decode (specEnv base tm mm) (ofSpecDoc doc) =
+      .ok ((Ref.swR base doc none [] doc).map (Triple.map (Nested.rank doc))) [] ∧
+    ((Ref.swR base doc none [] doc).map (Triple.map (Nested.rank doc))).Perm
+      ((denote base doc).map (Triple.map (Nested.rank doc))) ∧
+    (∀ p ∈ Nested.bnItems [] doc, ∀ q ∈ Nested.bnItems [] doc, Nested.rank doc p = Nested.rank doc q → p = q) :=
+  ⟨Ref.decode_ref base tm mm hdec doc hfrag, (Ref.swR_perm_denote base doc hfrag.1).map _,
+    fun p hp q hq h => Nested.rank_inj doc p q hp hq h⟩
 
 /-- C11, *partial*: on ITEM-LIST documents — html > (head, body > items), every item a `div` with arbitrary item
     attributes (itemscope, any itemid / itemtype / itemprop / id …) except itemref, whose children are the property
@@ -156,6 +220,37 @@ theorem mdd_reads_canonical_partial (base : Str) (tm mm : List (Bytes → Option
       (∀ a ∈ bnodesOf g, ∀ b ∈ bnodesOf g, τ a = τ b → a = b) ∧
       stmts.Perm (g.map (Triple.map τ)) :=
   canon_roundtrip base tm mm g hg ht
+
+/-- C11, recomposed with the writer for the enlarged fragment, *partial*: whatever document the writer
+    `Spec.Microdata.write` returns with its success flag set — a VALIDATED CANDIDATE (any markup choices: nesting,
+    value elements, wrappers, type-relative names; `validDoc`) or the canonical fallback — if it has no itemref and is
+    tokenised by Go as by HTML (`NestedFrag`; for the fallback `GoTok g`), the MODEL OF THE GO DECODER reads it back
+    to the graph `g`, up to order and a renaming injective on the graph's blank nodes.  Partial: candidates that use
+    itemref are not covered at model level (T3 only). -/
+theorem mdd_reads_written_partial (lbl : β → Str) (hinj : Function.Injective lbl) (base : Str)
+    (tm mm : List (Bytes → Option (Term Nat))) (hdec : Nested.Decline tm mm) (g : List (Triple β)) (cand : Tree)
+    (pos : β → Path) (hok : (write base g cand pos).2 = true) (hfrag : Nested.NestedFrag (write base g cand pos).1)
+    (ht : GoTok g) :
+    ∃ (stmts : List Stmt) (τ : β → Nat),
+      decode (specEnv base tm mm) (ofSpecDoc (write base g cand pos).1) = .ok stmts [] ∧
+      (∀ a ∈ bnodesOf g, ∀ b ∈ bnodesOf g, τ a = τ b → a = b) ∧
+      stmts.Perm (g.map (Triple.map τ)) := by
+  unfold write at hok hfrag ⊢
+  by_cases hv : validDoc base g cand pos = true
+  · simp only [hv, ↓reduceIte] at hok hfrag ⊢
+    exact Written.decode_validated lbl hinj base tm mm hdec g cand pos hv hfrag
+  · simp only [hv, Bool.false_eq_true, ↓reduceIte] at hok hfrag ⊢
+    exact canon_roundtrip base tm mm g hok ht
+
+/-- the same for validated candidates that use itemref to plain targets (`Ref.RefFrag`) -/
+theorem mdd_reads_written_itemref_partial (lbl : β → Str) (hinj : Function.Injective lbl) (base : Str)
+    (tm mm : List (Bytes → Option (Term Nat))) (hdec : Nested.Decline tm mm) (g : List (Triple β)) (cand : Tree)
+    (pos : β → Path) (hv : validDoc base g cand pos = true) (hfrag : Ref.RefFrag cand) :
+    ∃ (stmts : List Stmt) (τ : β → Nat),
+      decode (specEnv base tm mm) (ofSpecDoc cand) = .ok stmts [] ∧
+      (∀ a ∈ bnodesOf g, ∀ b ∈ bnodesOf g, τ a = τ b → a = b) ∧
+      stmts.Perm (g.map (Triple.map τ)) :=
+  Written.decode_validatedR lbl hinj base tm mm hdec g cand pos hv hfrag
 
 omit [DecidableEq β] in
 /-- a checkable sufficient condition for `GoTok` -/
@@ -227,6 +322,87 @@ example : decode (specEnv (asc "http://ex.org/dir/page.html") [] [])
          ⟨.iri (asc "http://ex.org/dir/page.html#me"), asc "http://schema.org/name", .lit (asc "Ann") xsdString none⟩,
          ⟨.iri (asc "http://ex.org/dir/page.html#me"), asc "http://p.example/rel", .iri (asc "http://ex.org/up")⟩,
          ⟨.bnode 0, asc "name", .lit (asc "Bob") xsdString none⟩] [] := by
+  decide
+
+/-- Non-vacuity of `mdd_refines_denote_nested_partial`: a typed item with an IRI subject; text and a wrapper
+    element between item and property; a three-token itemprop with a duplicate; a, img, time, meter, data value
+    rules; two levels of nested blank-node items; a property element outside every item. -/
+def exampleNested : Spec.Html.Tree :=
+  .elem .html {} [.elem .head {} [], .elem .body {} [
+    .elem .div { itemscope := true, itemtype := some (asc "http://schema.org/Person"), itemid := some (asc "#me") } [
+      .text (asc "hello "),
+      .elem .span {} [.elem .span { itemprop := some (asc "name nick name") } [.text (asc "An"), .elem .b {} [.text (asc "n")]]],
+      .elem .a { itemprop := some (asc "url"), href := some (asc "../up") } [.text (asc "home")],
+      .elem .img { itemprop := some (asc "image"), src := some (asc "pic.png") } [],
+      .elem .time { itemprop := some (asc "born"), datetime := some (asc "soon") } [.text (asc "t")],
+      .elem .div { itemprop := some (asc "knows"), itemscope := true } [
+        .elem .meter { itemprop := some (asc "level"), value := some (asc "high") } [],
+        .elem .div { itemprop := some (asc "knows"), itemscope := true } [
+          .elem .data { itemprop := some (asc "urn:p:x"), value := some (asc "v") } [.text (asc "shown")]]]],
+    .elem .span { itemprop := some (asc "orphan") } [.text (asc "outside")]]]
+
+example : Nested.NestedFrag exampleNested := by
+  refine ⟨by decide, by decide, by decide⟩
+
+example : Nested.Decline [] [] := by intro f hf; simp at hf
+
+/-- … and the statements in decoder order (blank nodes 0 and 1 in order of first reach). -/
+example : decode (specEnv (asc "http://ex.org/d/p") [] []) (ofSpecDoc exampleNested) =
+    .ok [⟨.iri (asc "http://ex.org/d/p#me"), Mdd.rdfType, .iri (asc "http://schema.org/Person")⟩,
+         ⟨.iri (asc "http://ex.org/d/p#me"), asc "http://schema.org/name", .lit (asc "Ann") xsdString none⟩,
+         ⟨.iri (asc "http://ex.org/d/p#me"), asc "http://schema.org/nick", .lit (asc "Ann") xsdString none⟩,
+         ⟨.iri (asc "http://ex.org/d/p#me"), asc "http://schema.org/url", .iri (asc "http://ex.org/up")⟩,
+         ⟨.iri (asc "http://ex.org/d/p#me"), asc "http://schema.org/image", .iri (asc "http://ex.org/d/pic.png")⟩,
+         ⟨.iri (asc "http://ex.org/d/p#me"), asc "http://schema.org/born", .lit (asc "soon") xsdString none⟩,
+         ⟨.iri (asc "http://ex.org/d/p#me"), asc "http://schema.org/knows", .bnode 0⟩,
+         ⟨.bnode 0, asc "level", .lit (asc "high") xsdString none⟩,
+         ⟨.bnode 0, asc "knows", .bnode 1⟩,
+         ⟨.bnode 1, asc "urn:p:x", .lit (asc "v") xsdString none⟩] [] := by
+  decide
+
+/-- Non-vacuity of `mdd_reads_written_partial`: a graph with a blank-node OBJECT (no canonical document exists for
+    it) and a candidate that nests the blank node's item inside its referrer; the writer's validation accepts it. -/
+def exampleGraphNested : List (Triple Nat) :=
+  [⟨.iri (asc "http://ex.org/s"), asc "http://schema.org/knows", .bnode 7⟩,
+   ⟨.bnode 7, asc "http://schema.org/name", .lit (asc "Bob") xsdString none⟩]
+
+def exampleCand : Spec.Html.Tree :=
+  Spec.Microdata.docOf [.elem .div { itemscope := true, itemid := some (asc "http://ex.org/s") } [
+    .elem .div { itemprop := some (asc "http://schema.org/knows"), itemscope := true } [
+      .elem .span { itemprop := some (asc "http://schema.org/name") } [.text (asc "Bob")]]]]
+
+example : Spec.Microdata.validDoc (asc "http://ex.org/dir/page.html") exampleGraphNested exampleCand (fun _ => [1, 0, 0]) = true := by
+  decide
+
+example : Nested.NestedFrag exampleCand := ⟨by decide, by decide, by decide⟩
+
+/-- Non-vacuity of `mdd_refines_denote_itemref_partial`: two items share the detached block `addr` (one of them names
+    it twice and also names a missing id); the block comes after the first item and before the second; the second
+    item is nested in a third that has its own property. -/
+def exampleRef : Spec.Html.Tree :=
+  Spec.Microdata.docOf [
+    .elem .div { itemscope := true, itemref := some (asc "addr nope addr"), itemid := some (asc "http://ex.org/a") } [
+      .elem .span { itemprop := some (asc "name") } [.text (asc "A")]],
+    .elem .div { id := some (asc "addr") } [
+      .text (asc "block "),
+      .elem .span { itemprop := some (asc "street") } [.text (asc "Main St")],
+      .elem .link { itemprop := some (asc "map"), href := some (asc "http://maps.example/m") } []],
+    .elem .div { itemscope := true } [
+      .elem .div { itemprop := some (asc "branch"), itemscope := true, itemref := some (asc "addr") } [],
+      .elem .meta { itemprop := some (asc "kind"), content := some (asc "hq") } []]]
+
+example : Ref.RefFrag exampleRef := ⟨by decide, by decide, by decide, by decide⟩
+
+example : decode (specEnv [] [] []) (ofSpecDoc exampleRef) =
+    .ok [⟨.iri (asc "http://ex.org/a"), asc "street", .lit (asc "Main St") xsdString none⟩,
+         ⟨.iri (asc "http://ex.org/a"), asc "map", .iri (asc "http://maps.example/m")⟩,
+         ⟨.iri (asc "http://ex.org/a"), asc "street", .lit (asc "Main St") xsdString none⟩,
+         ⟨.iri (asc "http://ex.org/a"), asc "map", .iri (asc "http://maps.example/m")⟩,
+         ⟨.iri (asc "http://ex.org/a"), asc "name", .lit (asc "A") xsdString none⟩,
+         ⟨.bnode 0, asc "branch", .bnode 1⟩,
+         ⟨.bnode 1, asc "street", .lit (asc "Main St") xsdString none⟩,
+         ⟨.bnode 1, asc "map", .iri (asc "http://maps.example/m")⟩,
+         ⟨.bnode 0, asc "kind", .lit (asc "hq") xsdString none⟩] [] := by
   decide
 
 end RdfModel.C11Md
